@@ -429,4 +429,167 @@ example : Findings.f12 [0x73,0x3A,0x2F,0x2F,0x68,0x2F,0x2F,0x2E] [] = true ∧
     Findings.f12 [0x73,0x3A,0x2E,0x2F,0x2E,0x2E] [] = true ∧
     Findings.f12 [0x73,0x3A,0x2F,0x2F,0x68,0x2F,0x61,0x2F,0x2E] [] = false := by decide
 
+/-- **every case the evidence counts under a theorem**: whenever the classifier the driver runs on
+each generated pair (`Model.relCls`) names a covered case, relativisation round-trips through
+resolution -/
+theorem roundtrip_classified (G : Grammar) (ok : Lemmas.Grammar.Ok G) (okp : Lemmas.Grammar.OkPath G)
+    (oka : Lemmas.Grammar.OkAuth G) (we : Lemmas.Grammar.OkWE G) (a b : Text)
+    (ha : RE.Matches G.full a) (hb : RE.Matches G.full b)
+    (hc : (Model.relCls a b).covered = true) :
+    ∃ r t, Ref.relative_to a b = some r ∧ Ref.resolve r b = some t ∧ key t = key a := by
+  unfold Model.relCls at hc
+  by_cases h12 : Findings.f12 a b = true
+  · simp [h12, Model.RelCls.covered] at hc
+  have h12' := Bool.eq_false_iff.mpr h12
+  simp only [h12', Bool.false_eq_true, if_false] at hc
+  by_cases hw : (Ref.relative_to a b == Ref.whole a) = true
+  · -- the whole-target fallbacks
+    have hweq : Ref.relative_to a b = Ref.whole a := by simpa using hw
+    simp only [hw, if_true] at hc
+    cases hAa : (split a).authority with
+    | some aa =>
+      simp only [hAa, Option.isSome_some, if_true] at hc
+      by_cases hl : (nsegs (split a).path == [[]]) = true
+      · simp [hl, Model.RelCls.covered] at hc
+      · exact roundtrip_whole_fallback_partial G ok okp a b aa ha hb hAa (by simpa using hl) hweq
+    | none =>
+      simp only [hAa, Option.isSome_none, Bool.false_eq_true, if_false] at hc
+      by_cases hh : ((nsegs (split a).path).head? == some []) = true
+      · simp [hh, Model.RelCls.covered] at hc
+      · have hh' : (nsegs (split a).path).head? ≠ some [] := by simpa using hh
+        simp only [Bool.eq_false_iff.mpr hh, Bool.false_eq_true, if_false] at hc
+        by_cases hpa : isAbs (split a).path = true
+        · exact roundtrip_whole_fallback_noauth_partial G ok okp a b ha hAa hpa hh' hweq
+        · have hpa' : isAbs (split a).path = false := by simpa using hpa
+          simp only [hpa', Bool.false_eq_true, if_false] at hc
+          by_cases hlast : ((nsegs (split a).path).getLast? == some segDotDot) = true
+          · simp [hlast, Model.RelCls.covered] at hc
+          · exact roundtrip_whole_fallback_rootless_partial G ok okp a b ha hAa hpa' hh' (by simpa using hlast) hweq
+  · simp only [Bool.eq_false_iff.mpr hw, Bool.false_eq_true, if_false] at hc
+    by_cases hs : ((split a).scheme != (split b).scheme) = true
+    · simp [hs, Model.RelCls.covered] at hc
+    have hsch : (split a).scheme = (split b).scheme := by simpa using hs
+    simp only [Bool.eq_false_iff.mpr hs, Bool.false_eq_true, if_false] at hc
+    by_cases hR : ((split a).authority.isNone && (split b).authority.isNone && !isAbs (split a).path
+        && !isAbs (split b).path) = true
+    · -- two rootless paths
+      simp only [hR, if_true] at hc
+      simp only [Bool.and_eq_true, Option.isNone_iff_eq_none, Bool.not_eq_true'] at hR
+      obtain ⟨⟨⟨haa, hab⟩, hpa⟩, hpb⟩ := hR
+      by_cases hbad : ((nsegs (split a).path).head? == some [cDot, cDot]
+          || (nsegs (Path.parent_or_empty (split b).path)).head? == some [cDot, cDot]
+          || nsegs (split a).path == [] || Model.skipEmpty a b
+          || (nsegs (split a).path).head? == some []
+          || (nsegs (Path.parent_or_empty (split b).path)).head? == some []
+          || Lemmas.sdCond a b) = true
+      · rw [if_pos hbad] at hc; exact absurd hc (by decide)
+      · rw [if_neg hbad] at hc
+        have hbad' := Bool.eq_false_iff.mpr hbad
+        simp only [Bool.or_eq_false_iff] at hbad'
+        obtain ⟨⟨⟨⟨⟨⟨h1, h2⟩, h3⟩, h4⟩, h5⟩, h6⟩, h7⟩ := hbad'
+        exact roundtrip_on_class_rootless_partial G ok okp oka we a b ha hb hsch haa hab hpa hpb h1 h2
+          (by simpa using h3) h4 ⟨by simpa using h5, by simpa using h6⟩ h7
+    · simp only [Bool.eq_false_iff.mpr hR, Bool.false_eq_true, if_false] at hc
+      by_cases hO : ((split a).authority.map authKey != (split b).authority.map authKey || !isAbs (split a).path
+          || !(isAbs (split b).path || ((split b).path.isEmpty && (split b).authority.isSome))) = true
+      · rw [if_pos hO] at hc; exact absurd hc (by decide)
+      rw [if_neg hO] at hc
+      have hO' := Bool.eq_false_iff.mpr hO
+      simp only [Bool.or_eq_false_iff, bne_eq_false_iff_eq, Bool.not_eq_false'] at hO'
+      obtain ⟨⟨hkey, hpa⟩, hpbB⟩ := hO'
+      have hpb : isAbs (split b).path = true ∨ ((split b).path = [] ∧ (split b).authority.isSome = true) := by
+        rcases Bool.or_eq_true _ _ |>.mp hpbB with h | h
+        · exact .inl h
+        · simp only [Bool.and_eq_true, List.isEmpty_iff] at h
+          exact .inr h
+      by_cases hroot : (nsegs (split a).path == []) = true
+      · -- the target is the root
+        have hroot' : nsegs (split a).path = [] := by simpa using hroot
+        simp only [hroot, if_true] at hc
+        by_cases hbad : (nsegs (Path.parent_or_empty (split b).path) == [] || Lemmas.sdCond a b) = true
+        · rw [if_pos hbad] at hc; exact absurd hc (by decide)
+        · have hbad' := Bool.eq_false_iff.mpr hbad
+          simp only [Bool.or_eq_false_iff] at hbad'
+          obtain ⟨hbelow, hnsp⟩ := hbad'
+          have hbelow' : nsegs (Path.parent_or_empty (split b).path) ≠ [] := by simpa using hbelow
+          cases hBa : (split b).authority with
+          | some ab =>
+            cases hAa : (split a).authority with
+            | none => rw [hAa, hBa] at hkey; simp at hkey
+            | some aa =>
+              rw [hAa, hBa] at hkey
+              have hauth : authKey aa = authKey ab := by simpa using hkey
+              exact roundtrip_root_partial G ok okp oka we a b aa ab ha hb hsch hAa hBa hauth hpa
+                (hpb.elim .inl (fun h => .inr h.1)) hroot' hbelow' hnsp
+          | none =>
+            cases hAa : (split a).authority with
+            | some aa => rw [hAa, hBa] at hkey; simp at hkey
+            | none =>
+              have hpb' : isAbs (split b).path = true := by
+                rcases hpb with h | ⟨_, h⟩
+                · exact h
+                · rw [hBa] at h; simp at h
+              exact roundtrip_root_noauth_partial G ok okp oka we a b ha hb hsch hAa hBa hpa hpb' hroot' hbelow' hnsp
+      · have hne : nsegs (split a).path ≠ [] := by simpa using hroot
+        simp only [Bool.eq_false_iff.mpr hroot, Bool.false_eq_true, if_false] at hc
+        by_cases hsk : Model.skipEmpty a b = true
+        · simp [hsk, Model.RelCls.covered] at hc
+        have hcls : (!(Lemmas.remainder a b).2.2 && (Lemmas.remainder a b).1.head? == some []) = false :=
+          Bool.eq_false_iff.mpr hsk
+        simp only [Bool.eq_false_iff.mpr hsk, Bool.false_eq_true, if_false] at hc
+        by_cases hsd : Lemmas.sdCond a b = true
+        · exact roundtrip_same_document_partial G ok okp oka we a b ha hb hsch hkey hpa hpb hne hcls hsd
+        · have hnsp : Lemmas.sdCond a b = false := Bool.eq_false_iff.mpr hsd
+          simp only [hnsp, Bool.false_eq_true, if_false] at hc
+          cases hBa : (split b).authority with
+          | some ab =>
+            cases hAa : (split a).authority with
+            | none => rw [hAa, hBa] at hkey; simp at hkey
+            | some aa =>
+              rw [hAa, hBa] at hkey
+              have hauth : authKey aa = authKey ab := by simpa using hkey
+              exact roundtrip_on_class_partial G ok okp oka we a b aa ab ha hb hsch hAa hBa hauth hpa
+                (hpb.elim .inl (fun h => .inr h.1)) hne hcls hnsp
+          | none =>
+            cases hAa : (split a).authority with
+            | some aa => rw [hAa, hBa] at hkey; simp at hkey
+            | none =>
+              simp only [hBa, Option.isSome_none, Bool.false_eq_true, if_false] at hc
+              have hpb' : isAbs (split b).path = true := by
+                rcases hpb with h | ⟨_, h⟩
+                · exact h
+                · rw [hBa] at h; simp at h
+              by_cases hhd : ((nsegs (split a).path).head? == some []
+                  || (nsegs (Path.parent_or_empty (split b).path)).head? == some []) = true
+              · simp [hhd, Model.RelCls.covered] at hc
+              · have hhd' := Bool.eq_false_iff.mpr hhd
+                simp only [Bool.or_eq_false_iff] at hhd'
+                exact roundtrip_on_class_noauth_partial G ok okp oka we a b ha hb hsch hAa hBa hpa hpb' hne
+                  (by simpa using hhd'.1) (by simpa using hhd'.2) hcls hnsp
+
+/-- end to end, URI family: accepted `Uri`s on a covered case -/
+theorem uri_roundtrip_classified (a b : Text) (ha8 : ∀ c ∈ a, c < 256) (hb8 : ∀ c ∈ b, c < 256)
+    (ha : accepts .uri a = true) (hb : accepts .uri b = true) (hc : (Model.relCls a b).covered = true) :
+    ∃ r t, Ref.relative_to a b = some r ∧ Ref.resolve r b = some t ∧ key t = key a :=
+  roundtrip_classified uriG Lemmas.uriG_ok Lemmas.uriG_okPath Lemmas.uriG_okAuth Lemmas.uriG_okWE a b
+    (Valid.uri_octets a ha8 ha) (Valid.uri_octets b hb8 hb) hc
+
+/-- … IRI family (octets) -/
+theorem iri_roundtrip_classified (a b : Text) (ha8 : ∀ c ∈ a, c < 256) (hb8 : ∀ c ∈ b, c < 256)
+    (ha : accepts .iri a = true) (hb : accepts .iri b = true) (hc : (Model.relCls a b).covered = true) :
+    ∃ r t, Ref.relative_to a b = some r ∧ Ref.resolve r b = some t ∧ key t = key a :=
+  roundtrip_classified Lemmas.iriGB Lemmas.iriGB_ok Lemmas.iriGB_okPath Lemmas.iriGB_okAuth Lemmas.iriGB_okWE a b
+    (Valid.iri_octets a ha8 ha) (Valid.iri_octets b hb8 hb) hc
+
+/-- non-vacuity: one pair per covered case -/
+example :
+    Model.relCls [0x73,0x3A,0x2F,0x2F,0x68,0x2F,0x61,0x2F,0x62] [0x73,0x3A,0x2F,0x2F,0x68,0x2F,0x61,0x2F,0x63] = .classAuthority ∧
+    Model.relCls [0x73,0x3A,0x2F,0x61,0x2F,0x62] [0x73,0x3A,0x2F,0x61,0x2F,0x63] = .classNoauth ∧
+    Model.relCls [0x73,0x3A,0x61,0x2F,0x62] [0x73,0x3A,0x61,0x2F,0x63,0x2F,0x64] = .classRootless ∧
+    Model.relCls [0x73,0x3A,0x2F,0x2F,0x68,0x2F] [0x73,0x3A,0x2F,0x2F,0x68,0x2F,0x63,0x2F,0x69] = .root ∧
+    Model.relCls [0x73,0x3A,0x2F,0x2F,0x68,0x2F,0x61,0x23,0x66] [0x73,0x3A,0x2F,0x2F,0x68,0x2F,0x61] = .sameDocument ∧
+    Model.relCls [0x73,0x3A,0x2F,0x2F,0x68,0x2F,0x70] [0x74,0x3A,0x2F,0x71] = .wholeAuthority ∧
+    Model.relCls [0x73,0x3A,0x2F,0x70] [0x74,0x3A,0x2F,0x71] = .wholeNoauthAbsolute ∧
+    Model.relCls [0x73,0x3A,0x70] [0x74,0x3A,0x2F,0x71] = .wholeNoauthRootless := by decide
+
 end IrefVerif.Props.C15
